@@ -3,6 +3,7 @@
 pub mod c02;
 pub mod c03;
 pub mod c05;
+pub mod c09;
 pub mod c10;
 pub mod c13;
 pub mod c14;
@@ -18,6 +19,7 @@ pub fn run(args: &Args) -> Report {
         "C03" => c03::run(args),
         "C05" => c05::run(args),
         "C06" => c05::run_c06(args),
+        "C09" => c09::run(args),
         "C10" => c10::run(args),
         "C13" => c13::run(args),
         "C14" => c14::run(args),
